@@ -29,6 +29,7 @@ type c16Cfg struct {
 	Logger  int  `json:"logger"`  // 0 capturing custom logger, 1 log.New, 2 log.NewJSON
 	LogAuth bool `json:"logauth"` // control: WithLogAuthData (secrets must then be visible)
 	SMTP    bool `json:"smtp"`    // drive smtp.Client directly and issue NOOP after Auth returned
+	Retry   bool `json:"retry"`   // smtp mode: call Auth a second time on the same smtp.Client (after whatever the first did)
 }
 
 type c16Case struct {
@@ -195,6 +196,9 @@ func c16Exec(r *vf.Run, cfg c16Cfg, c *vf.Chooser) (keys, whats []string, contro
 				a = smtp.ScramSHA256Auth(c16User, secret)
 			}
 			_ = cl.Auth(a)
+			if cfg.Retry {
+				_ = cl.Auth(a)
+			}
 			authReturned = len(sess.Transcript)
 			_ = cl.Noop()
 			_ = cl.Quit()
@@ -310,7 +314,7 @@ func init() {
 	vf.Register(&vf.Check{
 		ID: "C16", Title: "authentication secrets never reach the debug log",
 		Run: func(r *vf.Run) {
-			r.SetRule("mechanism {PLAIN, LOGIN, CRAM-MD5, XOAUTH2, SCRAM-SHA-1, SCRAM-SHA-256, SCRAM-SHA-256-PLUS over real TLS} × 4 marker credentials (base64 padding 0/1/2, '='/',', Unicode) × logger {custom capturing, log.New, log.NewJSON} × {debug only, debug+WithLogAuthData as scanner control} × entry {mail.Client dial+send, smtp.Client Auth then NOOP} × every server script over {conforming, 535, non-base64 challenge, extra challenge, drop, transport write failure on the next client line} at every AUTH step and at the EHLO that precedes AUTH up to the deviation bound; the log (format, arguments, formatted line, raw output, decoded JSON msg) is scanned for the secret, its base64/hex/url-base64 forms and the exact SASL response; distinct by (configuration, script)")
+			r.SetRule("mechanism {PLAIN, LOGIN, CRAM-MD5, XOAUTH2, SCRAM-SHA-1, SCRAM-SHA-256, SCRAM-SHA-256-PLUS over real TLS} × 4 marker credentials (base64 padding 0/1/2, '='/',', Unicode) × logger {custom capturing, log.New, log.NewJSON} × {debug only, debug+WithLogAuthData as scanner control} × entry {mail.Client dial+send, smtp.Client Auth then NOOP, smtp.Client Auth, Auth again, then NOOP} × every server script over {conforming, 535, non-base64 challenge, extra challenge, drop, transport write failure on the next client line} at every AUTH step and at the EHLO that precedes AUTH up to the deviation bound; the log (format, arguments, formatted line, raw output, decoded JSON msg) is scanned for the secret, its base64/hex/url-base64 forms and the exact SASL response; distinct by (configuration, script)")
 			r.Assume("user names are not secrets", "a server that echoes credentials in its own reply text is outside the alphabet")
 			bound := 3
 			if r.Thorough {
@@ -330,6 +334,9 @@ func init() {
 									continue // quick: the scanner control runs once per mechanism × logger
 								}
 								cfgs = append(cfgs, c16Cfg{Mech: m, Cred: cr, Logger: lg, LogAuth: la, SMTP: sm})
+								if sm && !la {
+									cfgs = append(cfgs, c16Cfg{Mech: m, Cred: cr, Logger: lg, LogAuth: la, SMTP: sm, Retry: true})
+								}
 							}
 						}
 					}
